@@ -205,7 +205,7 @@ CLAIMED = {
    text='Coq theorems over R about the maps from the uniform stream to the variates that starsim itself defines, REGENERATED from distributions.py: uniform (support [low, high) and quantile law '
         'ppf(u) <= x <-> u <= (x - low)/(high - low)), the per-agent path of randint (scaled uniform in [low, high), its integer part in the half-open integer range), Bernoulli (true iff u < p, '
         'monotone in p under a fixed stream, never for p <= 0, always for p >= 1), the explicit lognormal (with the generated implicit parameters exp(mu + sigma^2/2) = mean and '
-        '(exp(sigma^2) - 1) exp(2 mu + sigma^2) = std^2, for all mean, std > 0), time-wrapped parameters (variates x exactly the factor). Q twins of the same source expressions are evaluated in '
+        '(exp(sigma^2) - 1) exp(2 mu + sigma^2) = std^2, for all mean, std > 0), time-wrapped parameters (variates x exactly the factor), and the discrete choice with probabilities (Model/L1_Choice.v: normalised cumulative sums + insertion index as in NumPy`s Generator.choice and in ss.choice.ppf; every uniform in [0,1) selects an existing option and option i is selected exactly on an interval of length p_i / sum p, for every list p). Q twins of the same source expressions are evaluated in '
         'Coq against recorded (uniform, variate) pairs. For every family of ss.dist_list x {scalar, array, callable} parameters the implementation is compared with the SciPy quantile function '
         'on the same-seed uniform stream (exact) and with the SciPy law (KS / moments, 6 sigma); paths agree, supports, dtypes, empty requests, Bernoulli monotonicity, time scaling over a unit grid.',
    note='PARTIAL: the quantile functions of normal, lognormal, exponential, Poisson, negative binomial, Weibull and gamma are SciPy`s (family and parameter names pinned) and the NumPy generator '
